@@ -153,9 +153,18 @@ CLAIMS["C20"] = dict(
     design="DESIGN.md section 4, C20",
 )
 
+CLAIMS["C05"] = dict(
+    text=("Deductive proof of the totality clause for the SDP parsers: sdpunmarshaler.Unmarshal and its 29 helper functions never panic for any byte string - "
+          "the proof carries the parser's state-machine invariant (media state implies a last, non-nil media description; time-description state implies a time "
+          "description) through the line loop (a range-over-func loop) and the two dispatch functions, with every helper under its own contract - and each of the "
+          "22 format parsers, format.Unmarshal with its attribute helpers, and description.Media.Unmarshal never index, slice, dereference or allocate out of range for "
+          "any media description (zero-annotation sweep with inferred invariants; the LATM parser under a hand-written invariant)."),
+    note=TRUST + "Assumed: pion/sdp attribute constructors, strings/strconv specs, and that a StreamMuxConfig parsed by mediacommon has at least one program and layer. NOT decided: description.Session.Unmarshal2's loop over medias (needs per-implementation frames of Format.unmarshal), replaceSmartPayloadType's regexp index, equality of the re-parsed description and the marshal side.",
+    design="DESIGN.md section 8.2, C05",
+)
+
 NOT_APPLICABLE = {
     "C01": "end-to-end delivery, order, at-most-once and loss accounting are statements over packet histories crossing goroutines, queues and sockets (schedules): not expressible as a contract on one call or one data structure; the per-call facts underneath are covered by C04 (fresh frame buffers), C16 (queue contracts) and C18 (size limits)",
-    "C05": "the totality half (parsing arbitrary SDP never panics) is within reach of the same sweep as C09, but sdpunmarshaler, description and the 22 format parsers are not under contract with a baseline yet; equality of the re-parsed description is a statement over strings outside the theory used; no partial check is registered",
     "C11": "process-level property over channels, goroutines and timeouts (no deadlock, cleanup of goroutines/sessions): not expressible as a contract on one call or one data structure; the leaf validators it relies on are covered under other properties",
     "C13": "liveness and schedule property (Close returns in bounded time under all interleavings, no leaked goroutine or socket, callback ordering): outside sequential contract-based verification",
 }
